@@ -148,7 +148,7 @@ theorem exec_callExpr {G : GCtx} (ok : G.OK) (fuel : Nat) (hcs : ∀ k, k < fuel
                 have := exec_usercall ok f (hcs f (Nat.lt_succ_self _)) hpi hpj sp dep hi hlo hspv hstack args f st s ws hp hev
                   gs code gs' i a b mem hseq hat hrs hsz hnl hci
                 rw [hcu] at this
-                obtain ⟨a', b', mem', hst, rep', hres'⟩ := this
+                obtain ⟨a', b', mem', hst, rep', hres', _⟩ := this
                 have := hres' hf w rfl
                 subst this
                 rw [hs.2.2.2.1] at hst
@@ -352,7 +352,7 @@ theorem execS_callStmt {G : GCtx} (ok : G.OK) (fuel : Nat) (hcs : ∀ k, k < fue
               have := exec_usercall ok f (hcs f (Nat.lt_succ_self _)) hpi hpj sp dep hi hlo hspv hstack args f st s ws hp hev
                 gs code gs' i a b mem hgen hat hrs hsz hnl hci
               rw [hcu] at this
-              obtain ⟨a', b', mem', hst, rep', _⟩ := this
+              obtain ⟨a', b', mem', hst, rep', _, _⟩ := this
               rw [hs.2.2.2.1] at hst
               exact ⟨a', b', mem', hst, rep'⟩
 
